@@ -14,6 +14,7 @@ import (
 	"sync"
 	"time"
 
+	"verif/engine/vsched"
 	"verif/engine/vsys"
 )
 
@@ -80,7 +81,11 @@ func runJob(j Job) JobResult {
 	if j.DeadlineUnix > 0 {
 		deadline = func() bool { return time.Now().Unix() >= j.DeadlineUnix }
 	}
-	st, viols, eerr := Explore(sc, j.Bound, j.Budget, j.StopFirst, deadline, nil)
+	var keyFn func(*vsched.Sched, *X) string
+	if j.Prune && j.Bound < 0 {
+		keyFn = func(s *vsched.Sched, x *X) string { return s.Key(x.StateKey()) }
+	}
+	st, viols, eerr := Explore(sc, j.Bound, j.Budget, j.StopFirst, deadline, keyFn)
 	res.Stats = st
 	if eerr != "" {
 		res.EngineErr = eerr
@@ -380,6 +385,7 @@ func CheckMain(args []string) int {
 			engineErrs = append(engineErrs, err)
 		}
 		execs, steps, points, maxPre := 0, 0, 0, 0
+		pruned, gstates := 0, 0
 		outcomes := map[string]bool{}
 		boundDone := 1 << 30
 		single := 0
@@ -389,6 +395,8 @@ func CheckMain(args []string) int {
 				continue
 			}
 			execs += r.Stats.Executions
+			pruned += r.Stats.Pruned
+			gstates += r.Stats.States
 			steps += r.Stats.Steps
 			points += r.Stats.ChoicePoints
 			if r.Stats.MaxPreempt > maxPre {
@@ -427,7 +435,9 @@ func CheckMain(args []string) int {
 		cov["scenarios"] = len(results)
 		cov["executions"] = execs
 		cov["choice_points"] = points
-		cov["preemption_bound_completed"] = boundDone
+		cov["preemption_bound_completed"] = boundDone // -1: unbounded search (all interleavings) with state-key pruning
+		cov["pruned_executions"] = pruned
+		cov["distinct_global_states_at_scheduling_points"] = gstates
 		cov["max_preemptions_in_an_execution"] = maxPre
 		cov["distinct_outcomes"] = len(outcomes)
 		cov["scenarios_with_single_outcome"] = single
